@@ -385,6 +385,90 @@ Proof.
   - intros f0 j. rewrite get_set. eqcases; [contradiction|apply H13].
 Qed.
 
+Lemma NoDup_app_intro : forall (l1 l2 : list nat), NoDup l1 -> NoDup l2 -> (forall x, In x l1 -> ~ In x l2) -> NoDup (l1 ++ l2).
+Proof.
+  induction l1 as [|x l1 IH]; cbn; intros l2 H1 H2 H3; [exact H2|].
+  inversion H1; subst. constructor.
+  - intro Hx. apply in_app_or in Hx. destruct Hx as [Hx|Hx]; [contradiction|]. exact (H3 x (or_introl eq_refl) Hx).
+  - apply IH; auto.
+Qed.
+
+(* an Empty family may be regarded as an Own one (its stack is empty) *)
+Lemma G_own_of_empty : forall a s f, G a s -> afget a f = FEmpty -> G (afset a f FOwn) s.
+Proof.
+  intros a s f [H1 H2 H3 H4 H5 H6 H7 H8 H9 H10 H11 H12 H13] He.
+  assert (Hst : fget s f = []) by (specialize (H6 f); rewrite He in H6; exact H6).
+  constructor; simp_acc; try assumption.
+  - intros f0. rewrite afget_afset. eqcases; [|apply H6]. simp_acc. rewrite Hst. split; [intros i []|constructor].
+  - intros l0 f0 j. rewrite aget_afset, afget_afset. eqcases; intros A1 A2 B1; [simp_acc; rewrite Hst; intros []|eapply H8; eauto].
+  - intros f1 f2 j. rewrite !afget_afset. eqcases; intros A1 A2 B1 B2; try reflexivity;
+      try (simp_acc; rewrite Hst in *; contradiction). eapply H9; eauto.
+  - intros j Hj. destruct (H10 j Hj) as [[l0 [Ha Hb]]|[f0 [Ha Hb]]].
+    + left. exists l0. auto.
+    + right. exists f0. rewrite afget_afset. destruct (N.eqb_spec f0 f); [subst; congruence|auto].
+Qed.
+
+Lemma G_ext : forall a a' s, G a s ->
+  (forall l, aget a' l = aget a l) -> (forall f, afget a' f = afget a f) -> (forall f, aflget a' f = aflget a f) ->
+  astatus a' = astatus a -> afailed a' = afailed a -> G a' s.
+Proof.
+  intros a a' s [H1 H2 H3 H4 H5 H6 H7 H8 H9 H10 H11 H12 H13] E1 E2 E3 E4 E5.
+  constructor; intros; rewrite ?E1, ?E2, ?E3, ?E4, ?E5 in *; eauto.
+  destruct (H10 i H) as [[l0 [Ha Hb]]|[f0 [Ha Hb]]]; [left; exists l0|right; exists f0]; rewrite ?E1, ?E2; auto.
+Qed.
+Lemma G_afset_same : forall a s f v, G a s -> afget a f = v -> G (afset a f v) s.
+Proof.
+  intros a s f v HG E. apply (G_ext a); auto. intros f0. rewrite afget_afset. destruct (N.eqb_spec f0 f); subst; auto.
+Qed.
+
+Lemma G_drain : forall a s src dst, G a s -> src <> dst -> afget a src = FOwn -> afget a dst <> FDang ->
+  G (afset (afset a dst FOwn) src FEmpty)
+    (upd_fams s (set src [] (set dst (fget s src ++ fget s dst) (fams s)))).
+Proof.
+  intros a s src dst [H1 H2 H3 H4 H5 H6 H7 H8 H9 H10 H11 H12 H13] Hne Hs Hd.
+  assert (HS := H6 src). rewrite Hs in HS. destruct HS as [HSa HSb].
+  assert (HD : (forall i, In i (fget s dst) -> In i (live s)) /\ NoDup (fget s dst) /\
+               (forall i, In i (fget s dst) -> afget a dst = FOwn)).
+  { specialize (H6 dst). destruct (afget a dst) eqn:E.
+    - rewrite H6. repeat split; [intros i []|constructor|intros i []].
+    - destruct H6 as [A B]. repeat split; auto.
+    - contradiction. }
+  destruct HD as [HDa [HDb HDc]].
+  assert (Hget : forall f0, get [] f0 (set src [] (set dst (fget s src ++ fget s dst) (fams s))) =
+                 if N.eqb f0 src then [] else if N.eqb f0 dst then fget s src ++ fget s dst else fget s f0).
+  { intros f0. rewrite !get_set. reflexivity. }
+  constructor; simp_acc; try assumption.
+  - intros f0. rewrite !afget_afset, Hget. destruct (N.eqb_spec f0 src); [reflexivity|].
+    destruct (N.eqb_spec f0 dst); [|apply H6]. split.
+    + intros i Hi. apply in_app_or in Hi. destruct Hi; auto.
+    + apply NoDup_app_intro; auto. intros x Hx Hx2. apply Hne. eapply (H9 src dst x); eauto.
+  - intros l0 f0 j. rewrite aget_afset, aget_afset, !afget_afset. intros A1 A2 B1. rewrite Hget.
+    destruct (N.eqb_spec f0 src); [discriminate|]. destruct (N.eqb_spec f0 dst).
+    + intro Hj. apply in_app_or in Hj. destruct Hj as [Hj|Hj].
+      * exact (H8 l0 src j A1 Hs B1 Hj).
+      * exact (H8 l0 dst j A1 (HDc j Hj) B1 Hj).
+    + eapply H8; eauto.
+  - intros f1 f2 j. rewrite !afget_afset. intros A1 A2. rewrite !Hget.
+    destruct (N.eqb_spec f1 src); [discriminate|]. destruct (N.eqb_spec f2 src); [discriminate|].
+    destruct (N.eqb_spec f1 dst), (N.eqb_spec f2 dst); subst; try reflexivity; intros B1 B2.
+    + exfalso. apply in_app_or in B1. destruct B1 as [B1|B1].
+      * assert (src = f2) by (eapply (H9 src f2 j); eauto). congruence.
+      * assert (dst = f2) by (eapply (H9 dst f2 j); eauto). congruence.
+    + exfalso. apply in_app_or in B2. destruct B2 as [B2|B2].
+      * assert (src = f1) by (eapply (H9 src f1 j); eauto). congruence.
+      * assert (dst = f1) by (eapply (H9 dst f1 j); eauto). congruence.
+    + eapply H9; eauto.
+  - intros j Hj. destruct (H10 j Hj) as [[l0 [Ha Hb]]|[f0 [Ha Hb]]].
+    + left. exists l0. auto.
+    + right. destruct (N.eq_dec f0 src) as [E|E].
+      * subst f0. exists dst. rewrite !afget_afset, Hget.
+        destruct (N.eqb_spec dst src); [congruence|]. rewrite N.eqb_refl. split; [reflexivity|]. apply in_or_app. left. exact Hb.
+      * exists f0. rewrite !afget_afset, Hget. destruct (N.eqb_spec f0 src); [contradiction|].
+        destruct (N.eqb_spec f0 dst); [split; [reflexivity|]; subst; apply in_or_app; right; exact Hb|auto].
+  - intros f0 j. rewrite Hget. destruct (N.eqb_spec f0 src); [intros []|]. destruct (N.eqb_spec f0 dst); [|apply H13].
+    intro Hj. apply in_app_or in Hj. destruct Hj; eauto.
+Qed.
+
 (* ------------------------------------------------------------------ equality tests of the analysis *)
 Lemma store_eqb_eq : forall A (eqb : A -> A -> bool), (forall x y, eqb x y = true -> x = y) ->
   forall m1 m2 : store A, store_eqb eqb m1 m2 = true -> m1 = m2.
@@ -593,6 +677,16 @@ Proof.
   - (* ClearFam *)
     destruct (afget a f) eqn:Ef; try discriminate; inv_some;
       (eexists; split; [left; reflexivity|]; cbn; apply G_clearfam; [exact HG|congruence]).
+  - (* Drain *)
+    destruct (N.eqb_spec src dst) as [E|E]; [discriminate|].
+    destruct (afget a src) eqn:Es.
+    + inv_some. rewrite (fam_empty a s src HG Es). exists a. split; [left; reflexivity|exact HG].
+    + destruct (afget a dst) eqn:Ed; try discriminate; inv_some;
+      (destruct (fget s src) as [|i rest] eqn:Est;
+       [ eexists; split; [left; reflexivity|]; cbn; apply G_refine_empty; [|exact Est];
+         first [ apply G_own_of_empty; [exact HG|exact Ed] | apply G_afset_same; [exact HG|exact Ed] ]
+       | eexists; split; [left; reflexivity|]; cbn [fst snd]; rewrite <- Est; apply G_drain; [exact HG|exact E|exact Es|congruence] ]).
+    + discriminate.
   - (* Return *)
     inv_some. eexists. split; [left; reflexivity|]. cbn. apply G_add_ev. apply G_status. exact HG.
   - (* Call *)
@@ -613,4 +707,74 @@ Proof.
     destruct (snd (iter (reps o (nstar s)) (run o p) (upd_nstar s (S (nstar s))))).
     + apply in_or_app. right. exact B.
     + apply in_or_app. left. apply in_map_iff. exists a1. split; [reflexivity|exact B].
+Qed.
+
+(* ------------------------------------------------------------------ consequences used by the instance theorems *)
+Lemma G_clean_live : forall a s, G a s -> aclean a = true -> live s = [].
+Proof.
+  intros a s HG Hc. unfold aclean in Hc. apply andb_true_iff in Hc. destruct Hc as [C1 C2].
+  destruct (live s) as [|i L] eqn:E; [reflexivity|]. exfalso.
+  destruct (g_cover a s HG i) as [[l [A B]]|[f [A B]]]; [rewrite E; left; reflexivity| |].
+  - pose proof (forallb_get aval aval_clean ANull (aslots a) eq_refl C1 l) as H. unfold aget in A. rewrite A in H. discriminate.
+  - pose proof (forallb_get fval fval_clean FEmpty (afams a) eq_refl C2 f) as H. unfold afget in A. rewrite A in H. discriminate.
+Qed.
+
+Theorem acheck_sound : forall fuel P p a s o, acheck fuel P p a = true -> G a s ->
+  exists a', G a' (fst (run o p s)) /\ P a' = true.
+Proof.
+  intros fuel P p a s o Hc HG. unfold acheck, all_leaves in Hc.
+  destruct (aexec fuel true p a) as [L|] eqn:E; [|discriminate].
+  destruct (aexec_sound fuel true o (fun H => False_ind _ (Bool.diff_true_false H)) p a L s E HG) as [a' [A B]].
+  exists a'. split; [exact B|]. rewrite forallb_forall in Hc. exact (Hc _ A).
+Qed.
+
+(* no double free, no use of a dead/NULL pointer, no block handed to the wrong deallocator - for every oracle *)
+Theorem run_no_error : forall fuel p, acheck fuel (fun _ => true) p ainit = true ->
+  forall o, errs (fst (run o p init_state)) = [].
+Proof.
+  intros fuel p H o. destruct (acheck_sound fuel _ p ainit init_state o H G_init) as [a' [A _]]. exact (g_errs _ _ A).
+Qed.
+
+(* ... and nothing stays allocated *)
+Theorem run_no_leak : forall fuel p, acheck fuel aclean p ainit = true ->
+  forall o, live (fst (run o p init_state)) = [] /\ errs (fst (run o p init_state)) = [].
+Proof.
+  intros fuel p H o. destruct (acheck_sound fuel _ p ainit init_state o H G_init) as [a' [A B]].
+  split; [exact (G_clean_live _ _ A B)|exact (g_errs _ _ A)].
+Qed.
+
+(* the status is an error exactly when some allocation failed *)
+Theorem run_error_iff_failure : forall fuel p, acheck fuel aerr_iff_fail p ainit = true ->
+  forall o, status (fst (run o p init_state)) = false <-> 0 < nfail (fst (run o p init_state)).
+Proof.
+  intros fuel p H o. destruct (acheck_sound fuel _ p ainit init_state o H G_init) as [a' [A B]].
+  unfold aerr_iff_fail in B. apply eqb_prop in B. rewrite <- (g_status _ _ A). rewrite B, (g_failed _ _ A).
+  destruct (0 <? nfail (fst (run o p init_state))) eqn:E; cbn.
+  - apply Nat.ltb_lt in E. tauto.
+  - apply Nat.ltb_ge in E. split; [discriminate|lia].
+Qed.
+
+(* abstraction of a concrete state, slot by slot *)
+Definition abs_slot (s : state) (l : lbl) : aval :=
+  match sget s l with None => ANull | Some i => if mem_nat i (live s) then AOwn else ADang end.
+Lemma G_abs_slot : forall a s l, G a s -> abs_slot s l = aget a l.
+Proof.
+  intros a s l HG. unfold abs_slot. pose proof (g_slot a s HG l) as H. destruct (aget a l); cbn in H.
+  - rewrite H. reflexivity.
+  - destruct H as [i [A B]]. rewrite A. rewrite (proj2 (mem_nat_In i (live s)) B). reflexivity.
+  - destruct H as [i [A B]]. rewrite A. rewrite (proj2 (mem_nat_false i (live s)) B). reflexivity.
+Qed.
+
+(* after ANY failure pattern in [first], running [again] with memory available ends in the expected abstract state *)
+Theorem run_reusable : forall fuel first again expect, areusable fuel first again ainit expect = true ->
+  forall o1 o2, (forall k, fails o2 k = false) ->
+  G expect (fst (run o2 again (fst (run o1 first init_state)))).
+Proof.
+  intros fuel first again expect H o1 o2 Hnf. unfold areusable in H.
+  destruct (aexec fuel true first ainit) as [L|] eqn:E; [|discriminate].
+  destruct (aexec_sound fuel true o1 (fun H => False_ind _ (Bool.diff_true_false H)) first ainit L init_state E G_init) as [a1 [A B]].
+  rewrite forallb_forall in H. specialize (H _ A). cbn in H. unfold all_leaves in H.
+  destruct (aexec fuel false again a1) as [L2|] eqn:E2; [|discriminate].
+  destruct (aexec_sound fuel false o2 (fun _ => Hnf) again a1 L2 _ E2 B) as [a2 [C D]].
+  rewrite forallb_forall in H. specialize (H _ C). cbn in H. apply astate_eqb_eq in H. subst a2. exact D.
 Qed.
